@@ -3,9 +3,10 @@
   fcgi_recv_parse_loop() (src/mod_fastcgi.c) as a byte-at-a-time automaton (C10).
 
   The C appends every read to the queue `hctx->rb` and consumes a record only once its 8-byte
-  header, its content and its padding are all there; the automaton keeps the bytes of the
-  incomplete record and emits one event per completed record.  Version and request id of the
-  record header are ignored by the C, and so here.
+  header, its content and its padding are all there; the automaton collects the header, then
+  counts content and padding bytes down and emits one event per completed record.  Version and
+  request id of the record header are ignored by the C, and so here.  Nothing is parsed after
+  FCGI_END_REQUEST (the C stops reading).
 -/
 import LtVerif.Model.Basic
 namespace LtVerif.BeResp
@@ -23,31 +24,46 @@ inductive FrEv
 deriving Repr, DecidableEq
 
 structure FrSt where
-  buf : Bytes := []           -- bytes of the record being received (hctx->rb)
+  hdr : Bytes := []           -- header bytes of the record being received (fewer than 8)
+  inRec : Bool := false       -- header complete: receiving content, then padding
+  typ : UInt8 := 0            -- type of that record
+  need : Nat := 0             -- content bytes still missing
+  pad : Nat := 0              -- padding bytes still missing
+  acc : Bytes := []           -- content bytes received so far, most recent first
+  got : Nat := 0              -- bytes of the incomplete record received so far (length of hctx->rb)
   ended : Bool := false       -- FCGI_END_REQUEST seen (hctx->request_id = -1)
   evs : List FrEv := []       -- completed records, in order
 deriving Repr, DecidableEq
 
-/-- content length and padding length announced by a (complete) 8-byte record header -/
-def frContentLen (buf : Bytes) : Nat := (buf.getD 4 0).toNat * 256 + (buf.getD 5 0).toNat
-def frPadLen (buf : Bytes) : Nat := (buf.getD 6 0).toNat
-
-def frEvent (buf : Bytes) : FrEv :=
-  let t := buf.getD 1 0
-  let content := (buf.drop 8).take (frContentLen buf)
+def frEvent (t : UInt8) (content : Bytes) : FrEv :=
   if t = fcgiStdout then .stdout content
   else if t = fcgiStderr then .stderr content
   else if t = fcgiEndRequest then .endRequest
   else .other t
 
+/-- a record is complete: emit its event and wait for the next header -/
+def frEmit (s : FrSt) (t : UInt8) (accRev : Bytes) : FrSt :=
+  let ev := frEvent t accRev.reverse
+  { hdr := [], inRec := false, typ := 0, need := 0, pad := 0, acc := [], got := 0,
+    ended := ev = .endRequest, evs := s.evs ++ [ev] }
+
 def frStep (s : FrSt) (b : UInt8) : FrSt :=
-  if s.ended then { s with buf := s.buf ++ [b] }     -- nothing is parsed after END_REQUEST
+  if s.ended then s
+  else if !s.inRec then
+    let h := s.hdr ++ [b]
+    if h.length < 8 then { s with hdr := h, got := s.got + 1 }
+    else
+      let t := h.getD 1 0
+      let clen := (h.getD 4 0).toNat * 256 + (h.getD 5 0).toNat
+      let plen := (h.getD 6 0).toNat
+      if clen + plen = 0 then frEmit s t []
+      else { s with hdr := [], inRec := true, typ := t, need := clen, pad := plen, acc := [], got := s.got + 1 }
+  else if s.need > 0 then
+    if s.need = 1 && s.pad = 0 then frEmit s s.typ (b :: s.acc)
+    else { s with need := s.need - 1, acc := b :: s.acc, got := s.got + 1 }
   else
-    let buf := s.buf ++ [b]
-    if buf.length ≥ 8 && buf.length = 8 + frContentLen buf + frPadLen buf then
-      let ev := frEvent buf
-      { buf := [], ended := ev = .endRequest, evs := s.evs ++ [ev] }
-    else { s with buf := buf }
+    if s.pad ≤ 1 then frEmit s s.typ s.acc
+    else { s with pad := s.pad - 1, got := s.got + 1 }
 
 def frFeed (s : FrSt) (bs : Bytes) : FrSt := bs.foldl frStep s
 
